@@ -811,7 +811,7 @@ func checkLongLivedRefs(c *report.Ctx) {
 		"L/rapid.shutdownContext.agentsAwaitingExit": "re-made at the start of every shutdownAgents",
 	}
 	holds := func(t types.Type) bool {
-		s := t.String()
+		s := load.CanonTypeString(t) // (an instance of a generic container is written by the alias name it is declared with)
 		return strings.Contains(s, "core.Runtime") && !strings.Contains(s, "RuntimeState") || strings.Contains(s, "core.ExternalAgent") && !strings.Contains(s, "ExternalAgentState") && !strings.Contains(s, "ExternalAgentsMap") ||
 			strings.Contains(s, "core.InternalAgent") && !strings.Contains(s, "InternalAgentState") && !strings.Contains(s, "InternalAgentsMap")
 	}
@@ -825,7 +825,7 @@ func checkLongLivedRefs(c *report.Ctx) {
 			if !ok {
 				continue
 			}
-			named, ok := tm.Type().(*types.Named)
+			named, ok := types.Unalias(tm.Type()).(*types.Named)
 			if !ok {
 				continue
 			}
@@ -837,7 +837,7 @@ func checkLongLivedRefs(c *report.Ctx) {
 				continue
 			}
 			tn := an.TypeName(named)
-			if load.GlueStruct[named.Obj().Pkg().Path()+"."+named.Obj().Name()] && !reachableFromPinnedField(c, named) {
+			if load.GlueStruct[load.CanonTypeName(named)] && !reachableFromPinnedField(c, named) {
 				continue // a helper struct the pinned tree does not have and that no pinned struct refers to: it lives as long as the call that makes it
 			}
 			for i := 0; i < st.NumFields(); i++ {
